@@ -39,3 +39,83 @@ func InstrumentOgen(s *build.Scratch) (*rewrite.Stats, error) {
 	}
 	return st, nil
 }
+
+// HarnessDir is the scratch module that holds the simulation harness.
+func HarnessDir(s *build.Scratch) string { return filepath.Join(s.Dir, "h") }
+
+// PrepareHarness creates the harness module (replace github.com/ogen-go/ogen => ../ogen) with the given
+// harness packages copied from /verif/simsrc.
+func PrepareHarness(s *build.Scratch, pkgs ...string) error {
+	h := HarnessDir(s)
+	if err := os.MkdirAll(h, 0o755); err != nil {
+		return build.Toolf("harness: %v", err)
+	}
+	gomod, err := os.ReadFile(filepath.Join(s.Src, "go.mod"))
+	if err != nil {
+		return build.Toolf("harness: %v", err)
+	}
+	var sb strings.Builder
+	sb.WriteString("module simh\n\ngo 1.25\n\nrequire github.com/ogen-go/ogen v0.0.0\n\nreplace github.com/ogen-go/ogen => ../ogen\n\n")
+	// copy ogen's require blocks so that every dependency version is pinned to what ogen uses
+	lines := strings.Split(string(gomod), "\n")
+	in := false
+	for _, l := range lines {
+		t := strings.TrimSpace(l)
+		switch {
+		case strings.HasPrefix(t, "require ("):
+			in = true
+			sb.WriteString(l + "\n")
+		case in && t == ")":
+			in = false
+			sb.WriteString(l + "\n\n")
+		case in:
+			sb.WriteString(l + "\n")
+		case strings.HasPrefix(t, "require "):
+			sb.WriteString(l + "\n")
+		}
+	}
+	if err := os.WriteFile(filepath.Join(h, "go.mod"), []byte(sb.String()), 0o644); err != nil {
+		return build.Toolf("harness: %v", err)
+	}
+	sum, _ := os.ReadFile(filepath.Join(s.Src, "go.sum"))
+	if err := os.WriteFile(filepath.Join(h, "go.sum"), sum, 0o644); err != nil {
+		return build.Toolf("harness: %v", err)
+	}
+	for _, p := range pkgs {
+		if err := copyTree(filepath.Join(SimSrc(), p), filepath.Join(h, p)); err != nil {
+			return build.Toolf("harness: %v", err)
+		}
+	}
+	return nil
+}
+
+// BuildTest compiles a harness test package with the simulation toolchain; race adds the race detector.
+func BuildTest(s *build.Scratch, pkg, out string, race bool) (string, error) {
+	args := []string{"test", "-c", "-trimpath"}
+	if race {
+		args = append(args, "-race")
+	}
+	bin := filepath.Join(s.Bin, out)
+	args = append(args, "-o", bin, "./"+pkg)
+	if err := s.Go(build.GoSim, HarnessDir(s), args...); err != nil {
+		return "", err
+	}
+	return bin, nil
+}
+
+func copyTree(src, dst string) error {
+	return filepath.Walk(src, func(p string, info os.FileInfo, err error) error {
+		if err != nil {
+			return err
+		}
+		rel, _ := filepath.Rel(src, p)
+		if info.IsDir() {
+			return os.MkdirAll(filepath.Join(dst, rel), 0o755)
+		}
+		b, err := os.ReadFile(p)
+		if err != nil {
+			return err
+		}
+		return os.WriteFile(filepath.Join(dst, rel), b, 0o644)
+	})
+}
